@@ -143,4 +143,91 @@ def phraseOn (adjs : List (List Nat)) (slop : Nat) : Bool :=
     if 2 < adjs.length then decide (0 < (carrying L S R slop).1)
     else decide (0 < countWithSlop L R slop)
 
+/-! ### slop = 0: the sorted-merge intersections of `PhraseScorer`
+
+-- mirrors: src/query/phrase_query/phrase_scorer.rs::intersection          (`interSorted`)
+-- mirrors: src/query/phrase_query/phrase_scorer.rs::intersection_exists   (`existsSorted`)
+-- mirrors: src/query/phrase_query/phrase_scorer.rs::intersection_count    (`countSorted`)
+-- mirrors: src/query/phrase_query/phrase_scorer.rs::compute_phrase_match  (`exactFold`, slop = 0)
+-/
+
+def interSortedF : Nat → List Nat → List Nat → List Nat
+  | 0, _, _ => []
+  | fuel + 1, a :: l, b :: r =>
+    if a < b then interSortedF fuel l (b :: r)
+    else if a = b then a :: interSortedF fuel l r
+    else interSortedF fuel (a :: l) r
+  | _ + 1, _, _ => []
+
+def interSorted (l r : List Nat) : List Nat := interSortedF (l.length + r.length) l r
+
+def existsSortedF : Nat → List Nat → List Nat → Bool
+  | 0, _, _ => false
+  | fuel + 1, a :: l, b :: r =>
+    if a < b then existsSortedF fuel l (b :: r)
+    else if a = b then true
+    else existsSortedF fuel (a :: l) r
+  | _ + 1, _, _ => false
+
+def existsSorted (l r : List Nat) : Bool := existsSortedF (l.length + r.length) l r
+
+def countSortedF : Nat → List Nat → List Nat → Nat
+  | 0, _, _ => 0
+  | fuel + 1, a :: l, b :: r =>
+    if a < b then countSortedF fuel l (b :: r)
+    else if a = b then 1 + countSortedF fuel l r
+    else countSortedF fuel (a :: l) r
+  | _ + 1, _, _ => 0
+
+def countSorted (l r : List Nat) : Nat := countSortedF (l.length + r.length) l r
+
+/-- fold the middle terms into the left positions; (left, last term's positions) -/
+def exactFold : List (List Nat) → List Nat → List Nat × List Nat
+  | [], L => (L, [])
+  | [last], L => (L, last)
+  | mid :: rest, L =>
+    let L' := interSorted L mid
+    if L'.isEmpty then ([], []) else exactFold rest L'
+
+/-- scoring disabled (`phrase_exists`, slop = 0) -/
+def exactOff (adjs : List (List Nat)) : Bool :=
+  match adjs with
+  | [] => false
+  | first :: rest => existsSorted (exactFold rest first).1 (exactFold rest first).2
+
+/-- scoring enabled (`compute_phrase_count > 0`, slop = 0) -/
+def exactOn (adjs : List (List Nat)) : Bool :=
+  match adjs with
+  | [] => false
+  | first :: rest => decide (0 < countSorted (exactFold rest first).1 (exactFold rest first).2)
+
+/-! ### the scorer's per-document state (`left_slops`) across the documents of a segment
+
+`compute_phrase_match` clears `left_slops` before it folds the terms of a document
+(`Gen.PHRASE_LEFT_SLOPS_RESET_AT_START`, re-read from the source on every run); `reset = false`
+is the scorer without that reset, whose carried slops leak into the next document. -/
+
+/-- scoring disabled: (does the document match, `left_slops` left behind) -/
+def offStep (reset : Bool) (slop : Nat) (st : List Nat) (adjs : List (List Nat)) : Bool × List Nat :=
+  match adjs with
+  | [] => (false, st)
+  | first :: rest =>
+    let r := phraseFold slop rest first (if reset then [] else st)
+    (existsWithSlop r.1 r.2.2 slop, r.2.1)
+
+/-- scoring enabled (the last intersection does not update the state: `update_left = false`) -/
+def onStep (reset : Bool) (slop : Nat) (st : List Nat) (adjs : List (List Nat)) : Bool × List Nat :=
+  match adjs with
+  | [] => (false, st)
+  | first :: rest =>
+    let r := phraseFold slop rest first (if reset then [] else st)
+    ((if 2 < adjs.length then decide (0 < (carrying r.1 r.2.1 r.2.2 slop).1)
+      else decide (0 < countWithSlop r.1 r.2.2 slop)), r.2.1)
+
+/-- the scorer driven over the candidate documents of a segment, threading its state -/
+def runSteps (step : List Nat → List (List Nat) → Bool × List Nat) :
+    List Nat → List (List (List Nat)) → List Bool
+  | _, [] => []
+  | st, d :: ds => (step st d).1 :: runSteps step (step st d).2 ds
+
 end TantivyModel.PhraseSlop
